@@ -16,7 +16,11 @@
 #include "src/secp256k1.c"
 #include "post.h"
 
+#ifdef C17_LOOP
+#define NMAX ((size_t)1 << 20)     /* loop-contract variant: counts symbolic up to 2^20 each, loops closed by engine-supplied loop contracts */
+#else
 #define NMAX ((size_t)1 << 40)
+#endif
 #ifdef C17_NBOUND
 #define FOR_IDX(k, v) for (k = 0; k <= C17_NBOUND; k++) if (k == (v))
 #else
@@ -61,6 +65,7 @@ void h_inc_aggregate(void) {
     /* EARLY-EXIT variant: only calls the specification rejects before the first loop; a call that nevertheless enters a loop trips the unwinding assertion */
     __CPROVER_assume(misuse || toosmall);
 #endif
+    verif_c17_gb = gb; verif_c17_gb_exp = gb_exp;
     len = alen;
     if (oneshot) ret = secp256k1_schnorrsig_aggregate(&ctx, use_agg ? aggsig : NULL, use_len ? &len : NULL, use_pk ? pks : NULL, use_msgs ? msgs : NULL, use_sigs ? sigs : NULL, nnew);
     else ret = secp256k1_schnorrsig_inc_aggregate(&ctx, use_agg ? aggsig : NULL, use_len ? &len : NULL, use_pk ? pks : NULL, use_msgs ? msgs : NULL, use_sigs ? sigs : NULL, nb, nnew);
@@ -89,7 +94,9 @@ void h_inc_aggregate(void) {
             __CPROVER_assert(c17_fin_hit, "C17 inc_aggregate: success => a randomizer was derived from the running hash at length 64+96(i+1) for every new signature");
             if (nb + gk != 0) __CPROVER_assert(c17_mul_hit, "C17 inc_aggregate: success => the product s_i * z_i (either order) was requested for every new signature i != 0");
             /* z_0 = 1: the aggregate of the single signature (r_0, s_0) is (r_0, s_0 mod n) - unless the code chose to multiply by one through the oracle */
+#ifndef C17_LOOP   /* needs the value of the accumulator after the loop, which a loop contract abstracts away */
             else if (nnew == 1) __CPROVER_assert(be256(aggsig + 32) == c17_redn(c17_exp_s) || c17_mul_one_hit || (c17_mul_hit && C17_Z == 1), "C17 inc_aggregate: success => aggregating the single signature (r_0, s_0) gives s = s_0 mod n (z_0 = 1)");
+#endif
         }
         if (nb == 0 && nnew == 0) REACH("inc_aggregate empty");
 #ifndef C17_NBOUND
